@@ -26,7 +26,7 @@ import (
 //
 // Case line (decimal):
 //
-//	E <wkind> <ckind> <nops> { <isString> <n> <reported> <err> <Size() after the call> }* <nrecv> { <value> }* <closed>
+//	E <wkind> <ckind> <nops> { <isString> <n> <reported> <err> <Size() after the call> }* <nrecv> { <value> }* <closed> <npieces> { <count reported by one call to the wrapped writer> }*
 //
 // Size() is read by the writing goroutine right after each call.  Violations judged here
 // (timeouts) are written as "VIOL <what> <case-like description>".
@@ -77,6 +77,7 @@ type under struct {
 	accepted []int  // bytes reported so far for script[i]
 	errSeen  []bool // some wrapped call of script[i] returned an error
 	pieces   int    // wrapped calls beyond the first per scripted call
+	counts   []int  // what each call made to the wrapped writer reported, in order
 }
 
 func (u *under) do(l int, viaString bool) (int, error) {
@@ -123,6 +124,7 @@ func (u *under) do(l int, viaString bool) (int, error) {
 		m = l
 	}
 	u.accepted[i] += m
+	u.counts = append(u.counts, m)
 	if hit && op.err {
 		u.errSeen[i] = true
 		return m, errScripted
@@ -274,6 +276,7 @@ type result struct {
 	reported    []int // what the wrapped writer reported for each scripted call, summed over its pieces
 	reportedErr []bool
 	pieces      int
+	counts      []int // per call made to the wrapped writer
 	doubleClose string
 	skip        string // the run was abandoned (a bounded wait of the harness expired): an outcome, not a verdict
 	sizePolled  bool
@@ -586,7 +589,7 @@ func oneRun(wk, ck int, script []opSpec, plan uint64) result {
 			res.viol = fmt.Sprintf("call-%d-of-%d-bytes-returned-without-reaching-the-wrapped-writer", i, script[i].n)
 		}
 	}
-	res.reported, res.reportedErr, res.pieces = u.accepted, u.errSeen, u.pieces
+	res.reported, res.reportedErr, res.pieces, res.counts = u.accepted, u.errSeen, u.pieces, u.counts
 	return res
 }
 
@@ -608,6 +611,20 @@ func caseFields(tag string, wk, ck int, script []opSpec, r result) []string {
 		f = append(f, strconv.Itoa(v))
 	}
 	f = append(f, b2s(r.closed))
+	// trailer: the counts reported by the wrapped writer, one per call made to it
+	counts := r.counts
+	if counts == nil {
+		for i, op := range script {
+			if i < len(r.skipped) && r.skipped[i] {
+				continue
+			}
+			counts = append(counts, op.k)
+		}
+	}
+	f = append(f, strconv.Itoa(len(counts)))
+	for _, c := range counts {
+		f = append(f, strconv.Itoa(c))
+	}
 	return f
 }
 
@@ -677,6 +694,7 @@ func veryLate(delay time.Duration) ([]opSpec, result) {
 		return sc, res
 	}
 	res.sizes = sizes
+	res.reported, res.reportedErr, res.counts = u.accepted, u.errSeen, u.counts
 	time.Sleep(delay)
 	ch := pw.Status()
 	deadline := time.After(5 * time.Second)
